@@ -9,7 +9,7 @@ PROPS["C10"] = {
                  "three-valued dialect recogniser",
     "rule": "cases = every concatenation of <= n tokens from a 46-token alphabet (brackets, separators, strings in both quotes, unquoted identifiers, "
             "well- and ill-formed numbers, literals and their prefixes, escapes incl. bad hex digits, comments, NaN/Infinity) and of <= m tokens from a 14-token core; "
-            "each judged at nesting limits 10 and 1; non-trivial = length >= 2 and the verdict is not DontCare; distinct by text",
+            "each judged at nesting limits 10, 2 and 1; non-trivial = length >= 2 and the verdict is not DontCare; distinct by text",
     "assumptions": ["engine/dialect.hpp encodes the dialect clauses of DESIGN 5/C10; verdicts are sets of acceptable codes; the DontCare zones are listed there and "
                     "their sizes are reported in the evidence metrics (zone:*)",
                     "numeric values judged with the C12 tolerance; position of repeated keys may be first or last"],
